@@ -369,3 +369,87 @@ def replay(rp):
     why, t = check(rp['abbr'], bool(rp.get('jsx')), exp)
     print('emmet.abbreviation.parse(%r, jsx=%r) -> %r\nproperty oracle (written mentions): %s' % (rp['abbr'], rp.get('jsx'), t, why or 'holds'))
     return 1 if why else 0
+
+
+# ---------------------------------------------------------------- whole pipeline (C03_expand_element_text)
+EXPAND_CFGS = [
+    {}, {'options': {'output.reverseAttributes': True}},
+    {'syntax': 'xml', 'options': {'output.compactBoolean': True, 'output.attributeQuotes': 'single'}},
+    {'syntax': 'vue', 'options': {'output.compactBoolean': True, 'output.booleanAttributes': ['b', 'class']}},
+    {'options': {'output.selfClosingStyle': 'xhtml', 'output.format': False}},
+    {'syntax': 'jsx', 'options': {'output.reverseAttributes': True}},
+]
+
+
+def au_mentions(e):
+    """The written mentions in attr_util's form (input of its independent merge + output statement)."""
+    import attr_util as au
+    out = []
+    for kind, x in e['parts']:
+        if kind in ('id', 'class'):
+            out.append(au.mention(kind, x, 'raw', form=kind))
+            continue
+        for a in x:
+            vt = {'none': 'raw', 'empty': 'raw', 'unq': 'raw', 'q1': 'q1', 'q2': 'q2', 'expr': 'expr'}[a['kind']]
+            out.append(au.mention(a['name'], a['value'], vt, a['boolean'], a['implied']))
+    return out
+
+
+def expand_expected(e, cfg):
+    """<name attr...></name>: merge rules + output decision table applied to the written mentions."""
+    import copy
+    import attr_util as au
+    from emmet.config import Config
+    opts = Config(copy.deepcopy(cfg)).options
+    spec = au.element_spec(au_mentions(e), opts)
+    return '<%s%s></%s>' % (e['name'], ''.join(au.render_attr(r) for r in spec), e['name'])
+
+
+def run_expand_stream(ctx, prop, n):
+    """Elements of the theorem's grammar through emmet.expand: oracle = the statement of
+    C03_expand_element_text (merged mentions written by the output table), model = extracted expand."""
+    import re
+    from emmet.snippets import markup_snippets
+    from markup_util import run_cases
+    rng = ctx.rng
+    cases = []
+    for k in range(n):
+        cfg = json.loads(json.dumps(EXPAND_CFGS[k % len(EXPAND_CFGS)]))
+        jsx = cfg.get('syntax') == 'jsx'
+        while True:
+            e = rand_elem(rng, jsx) if k >= len(SEEDS) * 2 else json.loads(json.dumps(SEEDS[k // 2]))
+            e['parts'] = [tuple(p) for p in e['parts']]
+            if e['name'] in markup_snippets or e['name'].lower() in markup_snippets or re.match(r'(?i)lorem', e['name']):
+                e['name'] = 'x' + e['name']
+            if jsx and 'A' <= e['name'][0] <= 'Z':
+                e['name'] = 'x' + e['name']
+            text = elem_text(e)
+            # statement domain: values free of line breaks (a line break inside a value is re-indented: C12)
+            if any(c in text for c in '\r\n'):
+                if k < len(SEEDS) * 2:
+                    e = {'name': 'x', 'parts': []}
+                    break
+                continue
+            break
+        cases.append((elem_text(e), cfg, {'want': expand_expected(e, cfg)}))
+
+    def oracle(abbr, cfg, meta, r):
+        if r != ('ok', meta['want']):
+            return 'output %r, the written mentions give <<%s>>' % (r, json.dumps(meta['want']))
+        return None
+    model = ctx.model('markup')
+    run_cases(ctx, model, cases, prop + 'expand', oracle, mode='expand')
+    for abbr, cfg, meta in cases:
+        ctx.cover('%sexpand:%s' % (prop, cfg.get('syntax', 'html')))
+    return cases
+
+
+def replay_expand(rp):
+    from markup_util import impl_expand
+    r = impl_expand(rp['abbr'], rp['config'])
+    why = rp.get('why', '')
+    want = json.loads(why[why.index('<<') + 2:why.rindex('>>')])
+    bad = r != ('ok', want)
+    print('expand(%r, %r) -> %r\nproperty oracle (merged mentions through the output table give %r): %s'
+          % (rp['abbr'], rp['config'], r, want, 'FAILS' if bad else 'holds'))
+    return 1 if bad else 0
